@@ -151,7 +151,7 @@ def run(spec, out):
         return Quantity(rng.choice([1, 2.5, -3, 1000]), value(t))
 
     ops = ["bare_prefix", "as_ratio", "format_ratio", "qformat_ratio", "str", "pretty", "html", "qhtml", "parse_str", "qparse_str", "arith", "root", "in_unit", "eq", "lt",
-           "json", "pickle", "cli", "level", "quantify", "qpretty", "add"]
+           "json", "pickle", "cli", "level", "quantify", "qpretty", "add", "render_other"]
     if spec.get("define_dimension"):
         ops += ["define_dimension"]
     foreign = list(spec.get("foreign_pickles", []))
@@ -228,6 +228,20 @@ def run(spec, out):
                     cli.print_quantity(f"{rng.choice([1, 5, 2.5])} " + rng.choice(["mile", "g-force", "BTU", "m^2", "lbf/in.^2", "hp", "acre", "kg", "J/s", "ft.^3", "N", "W", "cal"]))
                 except SystemExit:
                     pass
+        elif op == "render_other":
+            # every other rendering that takes a unit apart: the unit's dimension and prefix, measurements (all
+            # uncertainty styles), levels and logarithmic units, as text, format(), pretty and MathML
+            from IPython.lib.pretty import pretty
+            u = value(t)
+            q = q_of(t)
+            mm = m.Measurement(q, rng.choice([0, 0.5, 2]))
+            ref = rng.choice([1 * m.Unit._by_name["watt"], 1 * m.Unit._by_name["volt"]])
+            lu = rng.choice([m.Decibel, m.Bel, m.Neper])[ref]
+            lv = (rng.choice([2, 10, 0.5]) * ref).level(lu)
+            things = [u.dimension, u.prefix, mm, lv, lu, lu.logarithm]
+            x = rng.choice(things)
+            rng.choice([lambda: str(x), lambda: repr(x), lambda: pretty(x), lambda: x._repr_html_(), lambda: format(mm, rng.choice(["", "::/", ":±:", ":%:", ".3f:±.1f:/", ".2f:%.1f:"])),
+                        lambda: format(u.dimension), lambda: f"{q:.3f:/}", lambda: (mm.uncertainty_ratio, mm.uncertainty_percent)])()
         elif op == "level":
             ref = rng.choice([1 * m.Unit._by_name["watt"], 1 * m.Unit._by_name["volt"], 20 * (m.Prefix._by_name["micro"] * m.Unit._by_name["pascal"])])
             lu = rng.choice([m.Decibel, m.Bel, m.Neper])[ref]
